@@ -155,6 +155,11 @@ def cases(tier, seed):
         for i in range(0, len(ex3), 400):
             out.append({"family": "programs", "lo": i, "hi": min(i + 400, len(ex3)), "depth": 3, "ops": ["-", "/", "<", "=="]})
     out.append({"family": "associativity"})
+    # parameters handed over as numpy arrays of either float type (offsets computed with numpy): the pipeline object is used
+    # several times and the caller's arrays stay what they were
+    for name in ("shift", "from_gaussian", "from_array", "from_atoms"):
+        for dt in ("float64", "float32"):
+            out.append({"family": "caller-arrays", "name": name, "dtype": dt})
     for nparam in [0, 1, 2, 3, 4, "defaults-1", "defaults-2", "defaults-3"]:
         out.append({"family": "curry", "nparam": nparam})
     for name in ("gaussian_filter", "shift", "dilation", "erosion", "closing", "opening", "gaussian_smooth", "soft_otsu", "from_gaussian", "lowpass_filter"):
@@ -239,12 +244,17 @@ def _same(got, ref):
         err = np.abs(got.astype(np.float64) - ref.astype(np.float64))
     tol = 1e-4 * max(1.0, float(np.nanmax(np.abs(ref))))
     ok = bool(np.all((err <= tol) | (np.isnan(got) & np.isnan(ref)) | ((got == ref))))
+    if ok and got.dtype.kind == "f" and ref.dtype.kind == "f":
+        # exact zeros carry a sign that decides what a later division or comparison gives (2 / (2 - P) where P == 2)
+        z = (got == 0) & (ref == 0)
+        if z.any() and not np.array_equal(np.signbit(got[z]), np.signbit(ref[z])):
+            return False, f"sign of zero differs on {int((np.signbit(got[z]) != np.signbit(ref[z])).sum())} voxels"
     return ok, f"max difference {np.nanmax(err):.3g}"
 
 
 def run_case(case):
     fam = case["family"]
-    return {"programs": _programs, "associativity": _assoc, "curry": _curry, "covariance": _covariance, "rescale": _rescale,
+    return {"caller-arrays": _caller_arrays, "programs": _programs, "associativity": _assoc, "curry": _curry, "covariance": _covariance, "rescale": _rescale,
             "gaussian": _gaussian, "mask": _mask, "loader-dispatch": _dispatch, "atoms": _atoms, "centering": _centering}[fam](case)
 
 
@@ -334,6 +344,54 @@ def _assoc(case):
             if not (_same(l, r)[0] and _same(l, ref)[0]):
                 viol.append((f"{ID}|associativity|with-provider", f"({a}@{b})@{p}"))
     return {"nontrivial": True, "outcome": "assoc", "viol": list(dict(viol).items())}
+
+
+def _caller_arrays(case):
+    from acryo import pipe
+
+    name, dt = case["name"], np.dtype(case["dtype"])
+    a0, a1 = _imgs()
+    rng = np.random.default_rng(3)
+    arrs = {}
+    if name == "shift":
+        arrs["shift"] = np.array([1.0, -0.5, 0.5], dtype=dt)
+        mk = lambda A: pipe.shift(A["shift"])  # noqa
+        run = lambda p, s: p(a1, s)  # noqa
+    elif name == "gaussian_filter":
+        arrs["sigma"] = np.array([0.8, 1.2, 0.6], dtype=dt)
+        mk = lambda A: pipe.gaussian_filter(sigma=A["sigma"])  # noqa
+        run = lambda p, s: p(a1, s)  # noqa
+    elif name == "from_gaussian":
+        arrs.update(shape=np.array([6.0, 5.0, 7.0], dtype=dt), sigma=np.array([1.0, 1.5, 0.75], dtype=dt), shift=np.array([0.5, -0.25, 1.0], dtype=dt))
+        mk = lambda A: pipe.from_gaussian(A["shape"], A["sigma"], A["shift"])  # noqa
+        run = lambda p, s: p(s)  # noqa
+    elif name == "from_array":
+        arrs["img"] = a0.astype(dt)
+        mk = lambda A: pipe.from_array(A["img"], 1.0)  # noqa
+        run = lambda p, s: p(s)  # noqa
+    else:
+        arrs.update(atoms=(rng.random((30, 3)) * 4.0).astype(dt), weights=(rng.random(30) + 0.5).astype(dt), center=np.array([2.0, 2.0, 2.0], dtype=dt))
+        mk = lambda A: pipe.from_atoms(A["atoms"], A["weights"], A["center"])  # noqa
+        run = lambda p, s: p(s)  # noqa
+    keep = {k: v.copy() for k, v in arrs.items()}
+    viol = []
+    sig = lambda what: f"{ID}|caller-arrays|{name}|{what}"  # noqa
+    # reference: a pipeline built from private tuple / list copies, used once per scale
+    ref = {s_: np.asarray(run(mk({k: (v.tolist() if name != "from_array" and k not in ("atoms", "weights") else v.copy()) for k, v in keep.items()}), s_)) for s_ in (0.5, 1.0, 2.0)}
+    P = mk(arrs)
+    for rep in (1, 2, 3):
+        for s_ in (0.5, 1.0, 2.0):
+            got = np.asarray(run(P, s_))
+            ok, why = _same(got, ref[s_])
+            if not ok:
+                viol.append((sig("result-changes-with-use"), f"{dt} arrays, use #{rep} at scale {s_}: differs from the same pipeline built from private copies ({why})"))
+                break
+        if viol:
+            break
+    for k, v in arrs.items():
+        if not np.array_equal(v, keep[k]):
+            viol.append((sig("argument-modified"), f"the caller's {k} array ({dt}) was changed: {keep[k].ravel()[:3].tolist()} -> {v.ravel()[:3].tolist()}"))
+    return {"nontrivial": True, "outcome": f"caller-arrays|{'viol' if viol else 'ok'}", "viol": viol}
 
 
 def _curry(case):
